@@ -39,6 +39,9 @@ def run(c):
         if rng.random() < 0.3:
             cases.append(dict(k="pured", entry="gmm" if t["family"] == "GMM" else "gsm", inp=g["inp"]))
         c.count_distinct(("d", tuple(g["inp"])))
+        if rng.random() < (0.25 if not thorough else 0.1):
+            for v in hdr_variants(g["m"], g["inp"]):
+                cases.append(dict(k="pured", entry="plain", inp=v))
     for name, b in samples(3000 if not thorough else 70000):
         cases.append(dict(k="pured", entry="plain", inp=b))
     wants = [(g["m"], g["w"]) for g in gen if g["g"] and TBL[g["m"]]["family"] != "ENV"]
@@ -65,8 +68,7 @@ def run(c):
                 dict(case=cases[idx], observed={k: v for k, v in e.items() if k not in ("inp", "mand", "opt")}))
 
     def confirm(idx, t):
-        e0 = json.loads(events[idx])
-        return confirm_case(c, drv, cases[idx], lambda e: e == e0)
+        return confirm_by_tlc(c, drv, cases[idx], "Trace_C10", t[2], context=cases[max(0, idx - 2):idx])
     c.triage(mism, classify, confirm)
     c.cov["notes_octets"] = sum(1 for _, t in mism if t[0] == "NOTE")
     c.cov["rule"] = "cases = purity experiments on the real code (decode: snapshot/scribble/double run; encode: pre-filled buffer/double run); distinct non-trivial = distinct inputs (decode) and distinct message values (encode)"
